@@ -44,6 +44,7 @@ THEOREMS = [
     "Cotengra.C04.reachable_tracked",
     "Cotengra.C04.tracked_determined",
     "Cotengra.C04.slice_unslice_id",
+    "Cotengra.C04.maxcounter_inv",
 ]
 TRUSTED = [
     "Lean 4.33 kernel; axioms ⊆ {propext, Classical.choice, Quot.sound}",
@@ -296,8 +297,43 @@ def replay_corpus(ctx, drv):
         run_case(ctx, drv, obj.get("replay", obj)["case"])
 
 
+def maxcounter_corr(ctx, drv, nseq):
+    """(E) the Lean MaxCounter against cotengra.utils.MaxCounter on random op sequences."""
+    from cotengra.utils import MaxCounter
+    for _ in range(nseq):
+        ops = []
+        mcr = MaxCounter()
+        real = []
+        pool = [ctx.rng.randint(1, 6) for _ in range(4)]
+        for _ in range(ctx.rng.randint(1, 14)):
+            x = ctx.rng.choice(pool)
+            k = "add" if ctx.rng.random() < 0.55 else "discard"
+            ops.append([k, x])
+        dead = False
+        for k, x in ops:
+            if not dead:
+                try:
+                    (mcr.add if k == "add" else mcr.discard)(x)
+                except KeyError:
+                    dead = True
+            if dead:
+                real.append("KeyError")
+            else:
+                mx = mcr.max()
+                real.append({"max": None if mx == -float("inf") else int(mx),
+                             "items": sorted([int(a), int(b)] for a, b in mcr._c.items())})
+        r = drv.call("c04.mc", ops=ops)
+        ctx.count("maxcounter_sequences")
+        model = [o if o == "KeyError" else {"max": o["max"], "items": sorted(o["items"])} for o in r.get("outs", [])]
+        ctx.case({"maxcounter_ops": ops}, nontrivial=len(ops) >= 3, sample=False)
+        if model != real:
+            # implementation-side oracle: the maximum of the surviving multiset
+            ctx.corr_broken("Lean MaxCounter and utils.MaxCounter disagree", {"ops": ops, "real": real, "model": model})
+
+
 def run(ctx, drv):
     replay_corpus(ctx, drv)
+    maxcounter_corr(ctx, drv, 300 if ctx.tier == "quick" else 3000)
     ncases = 500 if ctx.tier == "quick" else 8000
     for _ in range(ncases):
         if ctx.time_left() < 10:
